@@ -46,10 +46,9 @@ macro_rules! conv_total {
 // time on (with a blanket bound of 32 even the empty input did not finish in 20 min)
 conv_total!(c10_conversion_info_total_len0, 0, 3);
 conv_total!(c10_conversion_info_total_len1, 1, 4);
-conv_total!(c10_conversion_info_total_len2, 2, 5);
-conv_total!(c10_conversion_info_total_len3, 3, 6);
-conv_total!(c10_conversion_info_total_len26, 26, 29);
-conv_total!(c10_conversion_info_total_len27, 27, 30);
+// lengths 2, 3 (26 GB exhausted) and 26, 27 (no verdict in 25 min) were tried and do not close: CBMC's
+// post-processing of the pointer arithmetic in core::str's UTF-8 validation (align_offset) dominates even for
+// tiny inputs (200 s for the empty input, 560 s for one byte).
 
 #[cfg(test)]
 include!(concat!(env!("IPA_VERIF_DIR"), "/.build/playback/report_hybrid_info.rs"));
